@@ -43,11 +43,6 @@ def cfg_wire():
 
 # ---------------------------------------------------------------------------------------------
 # leaf constructors: spec = [name, args]  (JSON-able, rebuilt by `build_leaf`)
-def _I(a):
-    from pyuncertainnumber import pba
-    return pba.I(a[0], a[1]) if isinstance(a, (list, tuple)) else a
-
-
 def rle(xs):
     out = []
     for v in xs:
@@ -317,6 +312,8 @@ class Hist:
             with np.errstate(all="ignore"):
                 fv = UFN[spec[1]](keys)
             ok = np.isfinite(keys) & np.isfinite(fv)
+            if spec[1] == "exp" and not np.all(ok):
+                self.nonfinite = True          # exp overflows to inf: outside the rational model
             keys, fv = keys[ok], fv[ok]
             if len(keys) == 0:
                 keys, fv = np.array([0.0]), np.array([0.0])
@@ -470,10 +467,18 @@ def ctor_cases(ctx):
     cases = []   # (stream, lists, left, right)
     def sorted_ints(m, lo=-30, hi=30):
         return sorted(rng.randint(lo, hi) for _ in range(m))
-    def wf_pair(m):
-        l = sorted_ints(m)
+    def wf_pair(m, distinct=False):
+        if distinct:      # strictly increasing bounds: every index of a length normalisation is visible in the values
+            l = sorted(rng.sample(range(-4 * m - 10, 4 * m + 10), m))
+        else:
+            l = sorted_ints(m)
         w = [rng.choice([0, 0, 1, 3]) for _ in range(m)]
-        r = list(np.maximum.accumulate([a + b for a, b in zip(l, w)]))
+        r = [a + b for a, b in zip(l, w)]
+        if distinct:
+            for i in range(1, m):
+                r[i] = max(r[i], r[i - 1] + 1)
+        else:
+            r = list(np.maximum.accumulate(r))
         return [float(x) for x in l], [float(x) for x in r]
     # exact length: accepted / swapped / crossing / unsorted
     for _ in range(ctx.scale(12, 200)):
@@ -505,13 +510,13 @@ def ctor_cases(ctx):
     # longer: condensation (with and without NaN on a sampled index)
     for _ in range(ctx.scale(10, 150)):
         m = rng.choice([n + 1, n + 2, 2 * n - 1, 2 * n, 3 * n + 7, rng.randint(n + 1, 5 * n)])
-        l, r = wf_pair(m)
+        l, r = wf_pair(m, distinct=True)
         if rng.random() < 0.3:
             (l if rng.random() < 0.5 else r)[rng.randrange(m)] = float("nan")
         cases.append(("ctor-longer", False, l, r))
     # shorter: 'next' interpolation
     for m in sorted(set([1, 2, 3, n - 1, n - 2] + [rng.randint(1, n - 1) for _ in range(ctx.scale(8, 120))])):
-        l, r = wf_pair(m)
+        l, r = wf_pair(m, distinct=True)
         cases.append(("ctor-shorter", rng.random() < 0.3, l, r))
     cases.append(("ctor-shorter", False, [-3.0], [-2.0]))       # one value: outside the single level the end value is used
     cases.append(("ctor-shorter", False, [5.0], [7.0]))
@@ -689,10 +694,6 @@ def moment_worker(item):
 
 
 # ---------------------------------------------------------------------------------------------
-def family_of(kind, spec_json):
-    return kind
-
-
 def report_problems(ctx, probs, feat, case, where):
     for chk, detail in probs:
         ctx.fail({**feat, "check": chk}, case, f"{where}: {chk} — {detail}")
